@@ -52,6 +52,13 @@ def cases(tier, seed):
         cs.append({'gen': 'op', 'op': OPS[i % len(OPS)], 'M': M, 'K': K, 'N': N,
                    'RA': gens.rank_profile(rng, d, prof, 3), 'RB': gens.rank_profile(rng, d, rng.choice(['distinct', 'rand', 'one']), 3),
                    'dtype': rng.choice(DT), 'vals': rng.choice(['int', 'int', 'int', 'gauss']), 'batch': [rng.randint(1, 3) for _ in range(i % 4)]})
+    # operator sums / differences / elementwise products of operands with DIFFERENT dtypes (the library promotes): real with complex, single with double, both orders
+    for i in range(120 if tier == 'quick' else 1200):
+        d = rng.choice([1, 2, 2, 3])
+        M, K, N = three_distinct(rng, d, (1, 2, 3, 4))
+        da_, db_ = [('f64', 'c128'), ('c128', 'f64'), ('f32', 'f64'), ('f64', 'f32'), ('f32', 'c128')][i % 5]
+        cs.append({'gen': 'op', 'op': ['add', 'sub', 'mul'][(i // 5) % 3], 'M': M, 'K': K, 'N': N, 'RA': gens.rank_profile(rng, d, 'rand', 3), 'RB': gens.rank_profile(rng, d, 'rand', 3), 'dtype': da_, 'dtB': db_,
+                   'vals': 'int' if i % 2 else 'gauss', 'batch': []})
     # A @ dense with thousands of batch entries (1-3 batch dims, 4100 .. 33000 entries, not multiples of a power of two): blocked evaluation must return every entry
     for i in range(8 if tier == 'quick' else 64):
         d = rng.choice([1, 2, 3])
@@ -173,7 +180,11 @@ def run_op(case, ctx, g):
         expR = RA
         ctx.count('branch:t')
     elif op in ('add', 'sub', 'mul'):
-        B = gens.make_tt(K, RB, dt, vals, g, M=M)
+        dtB = dn.dtype_of(case['dtB']) if case.get('dtB') else dt
+        B = gens.make_tt(K, RB, dtB, vals, g, M=M)
+        if dtB != dt:
+            ctx.count('operands-of-different-dtypes')
+            dA = dA.to(torch.complex128) if (dA.is_complex() or dn.D(B).is_complex()) else dA
         if zk == 7:
             import torchtt
             B = torchtt.TT([c * 0 if k_ == (case['seed'] // 11) % d else c for k_, c in enumerate(B.cores)])
@@ -212,8 +223,14 @@ def run_op(case, ctx, g):
     except ValueError as e:
         ctx.viol(key + '/clause=ill-formed-result', '%s: %s' % (what, e))
         return
-    compare(ctx, key, got, ref, vals == 'int' and gens.exact_ok(dt, bound), dn.ueps(dt), scale, what)
-    check_dtype(ctx, key, res, dt, what)
+    if case.get('dtB') and dn.dtype_of(case['dtB']) != dt:
+        # operands of different dtypes: the result has the PROMOTED dtype and nothing of the wider operand is cast down
+        dtp = torch.promote_types(dt, dn.dtype_of(case['dtB']))
+        compare(ctx, key + '/mixed-dtypes', got.to(ref.dtype) if got.dtype != ref.dtype else got, ref.to(got.dtype) if False else ref, vals == 'int' and gens.exact_ok(dt, bound) and gens.exact_ok(dn.dtype_of(case['dtB']), bound), dn.ueps(dtp), scale, what + ' (second operand %s)' % case['dtB'])
+        check_dtype(ctx, key + '/mixed-dtypes', res, dtp, what)
+    else:
+        compare(ctx, key, got, ref, vals == 'int' and gens.exact_ok(dt, bound), dn.ueps(dt), scale, what)
+        check_dtype(ctx, key, res, dt, what)
     if expR is not None and op not in ('add', 'sub', 'neg'):
         # C04 promises the rank structure of PRODUCTS only (A@x, x@A, A@B, elementwise *); the ranks of operator sums are not part of its statement (C03 states them for tensors)
         check_ranks(ctx, key, res, expR, what)
